@@ -27,16 +27,24 @@ class ClassModel:
         self.classes: dict[str, ast.ClassDef] = {}
         self.functions: dict[str, ast.FunctionDef] = {}
         self.env: dict[str, Any] = {}
+        # module-level names are per module: two modelled files may use one name for different tables
+        self.mod_env: dict[str, dict[str, Any]] = {r: {} for r in self.rels}
+        self.class_rel: dict[str, str] = {}
+        self.func_rel: dict[int, str] = {}
         for r in self.rels:
             m = repo.mod(r)
             for cname, c in m.classes().items():
-                self.classes.setdefault(cname, c)
+                if cname not in self.classes:
+                    self.classes[cname] = c
+                    self.class_rel[cname] = r
             for n in m.tree.body:
                 if isinstance(n, ast.FunctionDef):
                     self.functions[n.name] = n  # last definition wins (overloads)
+                    self.func_rel[id(n)] = r
             for k, v in m.constants().items():
                 if isinstance(v, (int, str, bool)) or v is None:
                     self.env.setdefault(k, v)
+                    self.mod_env[r][k] = v
         for cname, c in self.classes.items():
             if any(ast.unparse(b).split(".")[-1] in ("Enum", "IntEnum", "StrEnum", "Flag", "IntFlag") for b in c.bases):
                 from .ordabs import Sym
@@ -48,22 +56,31 @@ class ClassModel:
             self.env[fname] = self._function(fn)
         self.env.update(extra_env or {})
         self._cache: dict[tuple[str, str], Callable | None] = {}
-        # module-level tables (dict / set displays over constants and enum members), in source order; anything the
-        # evaluator cannot build is simply left unbound and reported when something needs it
+        self.load_tables()
+
+    def load_tables(self) -> None:
+        """Module-level tables (dict / set / tuple displays over constants, enum members, compiled patterns), in
+        source order; anything the evaluator cannot build is left unbound and reported when something needs it.
+        Called again once stand-ins (the regular-expression engine) are installed."""
         from .ordabs import ModelRaise, Unsupported
 
+        repo = self.repo
         for r in self.rels:
             for n in repo.mod(r).tree.body:
                 tgt = n.targets[0] if isinstance(n, ast.Assign) and len(n.targets) == 1 else n.target if isinstance(n, ast.AnnAssign) and n.value is not None else None
-                if isinstance(tgt, ast.Name) and tgt.id not in self.env and isinstance(n.value, (ast.Dict, ast.Set, ast.List, ast.Tuple, ast.Call, ast.DictComp, ast.BinOp)):
+                if isinstance(tgt, ast.Name) and tgt.id not in self.mod_env[r] and isinstance(n.value, (ast.Dict, ast.Set, ast.List, ast.Tuple, ast.Call, ast.DictComp, ast.BinOp)):
+                    if tgt.id in self.env and callable(self.env[tgt.id]) and tgt.id in self.classes:
+                        continue
                     try:
-                        self.env[tgt.id] = self._ev().ev(n.value)
+                        v = Ev({**self.env, **self.mod_env[r]}, self.where, self, self.max_steps).ev(n.value)  # type: ignore[arg-type]
                     except (Unsupported, ModelRaise, Exception):  # noqa: BLE001
-                        pass
+                        continue
+                    self.mod_env[r][tgt.id] = v
+                    self.env.setdefault(tgt.id, v)
 
     def _function(self, fn: ast.FunctionDef) -> Callable:
         def call(*args: Any, **kwargs: Any) -> Any:
-            return self._ev().closure(fn, base_env=dict(self.env))(*args, **kwargs)
+            return self._ev().closure(fn, base_env=self.env, extra=self.mod_env.get(self.func_rel.get(id(fn), ""), None))(*args, **kwargs)
 
         return call
 
@@ -144,14 +161,14 @@ class ClassModel:
         return r[1] if r else None
 
     def _ev(self) -> Ev:
-        return Ev(dict(self.env), self.where, self, self.max_steps)  # type: ignore[arg-type]
+        return Ev(self.env, self.where, self, self.max_steps)  # type: ignore[arg-type]  # closures copy the environment per call
 
     def _method(self, fn: ast.FunctionDef, owner: str | None = None) -> Callable:
         def call(recv: Obj, *args: Any, **kwargs: Any) -> Any:
-            env = dict(self.env)
-            env["__owner__"] = owner
-            env["__self__"] = recv
-            return self._ev().closure(fn, base_env=env)(recv, *args, **kwargs)
+            extra = dict(self.mod_env.get(self.class_rel.get(owner or "", ""), ()))
+            extra["__owner__"] = owner
+            extra["__self__"] = recv
+            return self._ev().closure(fn, base_env=self.env, extra=extra)(recv, *args, **kwargs)
 
         return call
 
@@ -256,6 +273,9 @@ def install_re(cm: ClassModel) -> None:
         for n in cm.repo.mod(r).tree.body:
             if isinstance(n, ast.Assign) and isinstance(n.targets[0], ast.Name) and isinstance(n.value, ast.Call) and ast.unparse(n.value.func) in ("re.compile", "regex.compile"):
                 try:
-                    cm.env[n.targets[0].id] = cm._ev().ev(n.value)  # noqa: SLF001
-                except Exception:  # noqa: BLE001, S110
-                    pass  # left unbound: reported as unsupported if something needs it
+                    v = cm._ev().ev(n.value)  # noqa: SLF001
+                except Exception:  # noqa: BLE001, S112
+                    continue  # left unbound: reported as unsupported if something needs it
+                cm.env[n.targets[0].id] = v
+                cm.mod_env[r][n.targets[0].id] = v
+    cm.load_tables()  # tables that mention the rebuilt patterns
